@@ -18,6 +18,11 @@ from .common import HarnessFault, Result
 
 
 def main(argv=None) -> int:
+    for stream in (sys.stdout, sys.stderr):  # counterexamples may hold lone surrogates: never die while printing one
+        try:
+            stream.reconfigure(errors="backslashreplace")
+        except (AttributeError, ValueError):
+            pass
     ap = argparse.ArgumentParser()
     ap.add_argument("pid")
     ap.add_argument("--tier", default=None)
